@@ -33,7 +33,7 @@ theorem dinv_start (s : St) (k : Nat) (r : Rec) (force : Bool) (hK : KInv s) (h 
         rw [hy] at hy0; simp at hy0; subst hy0
         -- generations after the new instance was appended
         have hget : ∀ (g : Nat) (y' : G), (modG s1 r.gen fun x =>
-            { x with insts := x.insts ++ [{ rid := r.id, data := r.data, waitOn := x.last }], last := some y.insts.length }).gens[g]? = some y' →
+            { x with insts := x.insts ++ [{ rid := r.id, data := r.data, waitOn := x.last, cancelled := s.ctx == some 0 }], last := some y.insts.length }).gens[g]? = some y' →
             (g ≠ r.gen ∧ s1.gens[g]? = some y') ∨
             (g = r.gen ∧ y'.key = k ∧ ∀ d, d ∈ dataOf y' ↔ (d ∈ dataOf y ∨ d = r.data)) := by
           intro g y' hy'
@@ -46,7 +46,7 @@ theorem dinv_start (s : St) (k : Nat) (r : Rec) (force : Bool) (hK : KInv s) (h 
             | none => simp [hy2] at hy'
             | some y2 => simp [hy2, hg] at hy'; subst hy'; exact Or.inl ⟨fun e => hg e.symm, rfl⟩
         refine dinv_setRec (modG s1 r.gen fun x =>
-            { x with insts := x.insts ++ [{ rid := r.id, data := r.data, waitOn := x.last }], last := some y.insts.length })
+            { x with insts := x.insts ++ [{ rid := r.id, data := r.data, waitOn := x.last, cancelled := s.ctx == some 0 }], last := some y.insts.length })
           k r { r with deferRetry := none, err := false, success := false, exited := false,
                        cur := some y.insts.length, cancelOf := some y.insts.length } ?_ (by simpa using hk1) rfl rfl
         refine ⟨?_, ?_, ?_, ?_⟩
